@@ -16,13 +16,13 @@ PROPS = {
     },
     "C03": {
         "test": "TestVerif_C03", "level": "exploration",
-        "rule": "random histories (create / update / remove of PDR, FAR, QER over 1-4 sessions and 1-2 associations, SDF filters from the grammar, CHOOSE / allocated identifiers, interleaved rejected-for-addressing requests) on the real agent + harness BESS server; after every accepted request the server's tables are compared with the reference image: FAR/QER tables exactly, PDR table as a classifier on boundary-value packets; plus crash points (incarnation killed after response i or at the j-th datapath command, new incarnation against the same populated server); distinct = distinct <normalised model image, table sizes> reached + crash points by <mode, entries left behind>",
+        "rule": "random histories (create / update / remove of PDR, FAR, QER over 1-4 sessions and 1-2 associations, SDF filters from the grammar, CHOOSE / allocated identifiers, interleaved rejected-for-addressing requests) on the real agent + harness BESS server; after every accepted request the server's tables are compared with the reference image: FAR/QER tables exactly, PDR table as a classifier on boundary-value packets; plus crash points (incarnation killed after response i or at the j-th datapath command, new incarnation against the same populated server); distinct = distinct <normalised model image, table sizes> reached + crash points by <mode, entries left behind>; QER lists and Create QER IEs in both orders; modifications rejected half-way (valid removals / updates then an unknown rule)",
         "shards": {"quick": 12, "thorough": 16}, "timeout": {"quick": 700, "thorough": 14000},
         "floors": {"quick": {"table_images_compared": 1500, "classification_samples": 100000, "crash_points": 20}, "thorough": {"table_images_compared": 50000, "crash_points": 1000}},
     },
     "C06": {
         "test": "TestVerif_C06", "level": "exploration", "owns_races": True,
-        "rule": "(i) bounded-exhaustive: every alloc/release sequence of length L (6 quick, 8 thorough) over 3 sessions on a /30 and a /29 pool in lock-step with a reference pool; (ii) random sequential histories on /30../20 with more sessions than addresses; (iii) concurrent histories (4-12 goroutines, 3-8 sessions, /30../28, GOMAXPROCS varied) recorded at the API boundary and checked for linearizability with porcupine against the reference pool + conservation invariant under the pool's own lock; (iv) UE addresses in Created PDR over PFCP on a /29 pool; distinct = sampled sequential codes, <prefix length, pool filled?> classes, concurrent histories whose operations actually overlapped by <prefix, goroutines, sessions, length>, distinct addresses seen end to end",
+        "rule": "(i) bounded-exhaustive: every alloc/release sequence of length L (6 quick, 8 thorough) over 3 sessions on a /30 and a /29 pool in lock-step with a reference pool; (ii) random sequential histories on /30../20 with more sessions than addresses; (iii) concurrent histories (4-12 goroutines, 3-8 sessions, /30../28, GOMAXPROCS varied) recorded at the API boundary and checked for linearizability with porcupine against the reference pool + conservation invariant under the pool's own lock; (iv) UE addresses in Created PDR over PFCP on a /29 pool; distinct = sampled sequential codes, <prefix length, pool filled?> classes, concurrent histories whose operations actually overlapped by <prefix, goroutines, sessions, length>, distinct addresses seen end to end; end-to-end part on both datapaths, on UP4 with a third of the deletions refused by the switch (address stays with the session)",
         "shards": {"quick": 12, "thorough": 16}, "timeout": {"quick": 600, "thorough": 14000}, "gomaxprocs": 8,
         "floors": {"quick": {"concurrent_histories": 2000, "histories_with_overlapping_operations": 200, "e2e_establishments": 50}, "thorough": {"concurrent_histories": 100000}},
     },
@@ -34,7 +34,7 @@ PROPS = {
     },
     "C18": {
         "test": "TestVerif_C18", "level": "exploration",
-        "rule": "schema-driven JSONC documents (per field: absent / valid / boundary / invalid / wrong JSON type), each loaded comment-free and twice with // and single-line /* */ comments, CRLF and odd whitespace at random inter-token positions; expected configuration = encoding/json decoding of the comment-free document + documented defaults (metamorphic for the commented variants); validity predicates on every returned configuration; documents with comment markers inside strings, multi-line block comments, truncated documents and arbitrary bytes for crash-freedom/validity only; every shipped upf*.jsonc; distinct = <field count, heartbeat flag, p4 flag, resp_timeout value> classes + marker/byte classes + samples",
+        "rule": "schema-driven JSONC documents (per field: absent / valid / boundary / invalid / wrong JSON type), each loaded comment-free and twice with // and single-line /* */ comments, CRLF and odd whitespace at random inter-token positions; expected configuration = encoding/json decoding of the comment-free document + documented defaults (metamorphic for the commented variants); validity predicates on every returned configuration; documents with comment markers inside strings, multi-line block comments, truncated documents and arbitrary bytes for crash-freedom/validity only; every shipped upf*.jsonc; distinct = <field count, heartbeat flag, p4 flag, resp_timeout value> classes + marker/byte classes + samples; the six documented defaults are also judged from the document itself (C18.R6), independent of the configuration type's decoding",
         "shards": {"quick": 8, "thorough": 16}, "timeout": {"quick": 600, "thorough": 10000},
         "floors": {"quick": {"loader_calls": 20000, "documents_loaded": 1000}, "thorough": {"loader_calls": 1000000}},
     },
@@ -46,7 +46,7 @@ PROPS = {
     },
     "C20": {
         "kind": "py", "module": "c20check", "level": "exploration",
-        "rule": "seeded histories (6-40 events) of RTM_NEWROUTE / RTM_DELROUTE / RTM_NEWNEIGH over 2 interfaces x 3 next hops x 4 prefixes (default route included), several routes per next hop, deletion of unresolved routes, delivered through the real netlink handler methods of conf/route_control.py; after EVERY event the module graph rebuilt from the calls received by a BESS-like recording client is compared with a reference model of kernel routes and neighbours; distinct = distinct <length, event-kind set, first 8 event kinds>",
+        "rule": "seeded histories (6-40 events) of RTM_NEWROUTE / RTM_DELROUTE / RTM_NEWNEIGH over 2 interfaces x 3 next hops x 4 prefixes (default route included), several routes per next hop, deletion of unresolved routes, delivered through the real netlink handler methods of conf/route_control.py; after EVERY event the module graph rebuilt from the calls received by a BESS-like recording client is compared with a reference model of kernel routes and neighbours; distinct = distinct <length, event-kind set, first 8 event kinds>; unresolved-neighbour messages (no link-layer address); two events handled on two threads with the window widened at neighbours.dump(); more next-hop creations (8300+) than a lookup module has gates",
         "floors": {"quick": {"netlink_events_delivered": 20000, "graph_comparisons": 20000}, "thorough": {"netlink_events_delivered": 1000000}},
     },
     "C07": {
@@ -57,7 +57,7 @@ PROPS = {
     },
     "C12": {
         "owns_races": True, "test": "TestVerif_C12", "level": "fault_enumeration",
-        "rule": "fault enumeration with a scripted lossy peer: for N in {1,2,3} answer exactly the k-th transmission (k=1..N+1) or none, on the heartbeat path and on the agent-initiated association path (cpiface.peers); late / duplicated / wrong-sequence / wrong-type responses; peer heartbeats before and after association (constant Recovery Time Stamp, postponement of the agent's own heartbeat); 4 feature configurations x {datapath up, down} x both datapaths; BESS server stop/start around association attempts and UP4 never connected; distinct = <scenario kind, N, k, variant>",
+        "rule": "fault enumeration with a scripted lossy peer: for N in {1,2,3} answer exactly the k-th transmission (k=1..N+1) or none, on the heartbeat path and on the agent-initiated association path (cpiface.peers); late / duplicated / wrong-sequence / wrong-type responses; peer heartbeats before and after association (constant Recovery Time Stamp, postponement of the agent's own heartbeat); 4 feature configurations x {datapath up, down} x both datapaths; BESS server stop/start around association attempts and UP4 never connected; distinct = <scenario kind, N, k, variant>; first Association Setup after the agent's channel left READY must be rejected; peer heartbeat while the agent's heartbeat is outstanding (hb-busy); peer port unreachable for one transmission (hb-portdown)",
         "shards": {"quick": 16, "thorough": 16}, "timeout": {"quick": 600, "thorough": 8000},
         "floors": {"quick": {"agent_request_transmissions_observed": 30, "feature_sets_checked": 6, "updown_states_checked": 3}, "thorough": {"agent_request_transmissions_observed": 800}},
     },
@@ -93,7 +93,7 @@ PROPS = {
     },
     "C05": {
         "test": "TestVerif_C05", "level": "exploration",
-        "rule": "every ending mode {Session Deletion, Association Release, read timeout, heartbeat failure, Session Report Response 'context not found'} x every prefix class {plain, establishment rejected after F-TEID/UE-address allocation (invalid FAR, malformed QER), modification rejected half-way, modification then end, injected P4Runtime write failure at a random write, two sessions} x both datapaths: datapath tables empty w.r.t. the dead sessions and allocator occupancy (UE pool, TEIDs, P4 counter/meter/tunnel-peer/application pools and maps, session store, pfcp_sessions gauge) back to the pre-session values; plus pool wraps: more attach/detach cycles than the smallest pool of each kind has elements (UE pool /29 x 40, 300 gNBs, 300 application filters, 600 sessions for 1024 counters, 400 three-QER sessions for 1023 meter cells, by deletion and by release); distinct = <datapath, ending, prefix> + wraps",
+        "rule": "every ending mode {Session Deletion, Association Release, read timeout, heartbeat failure, Session Report Response 'context not found'} x every prefix class {plain, establishment rejected after F-TEID/UE-address allocation (invalid FAR, malformed QER), modification rejected half-way, modification then end, injected P4Runtime write failure at a random write, two sessions} x both datapaths: datapath tables empty w.r.t. the dead sessions and allocator occupancy (UE pool, TEIDs, P4 counter/meter/tunnel-peer/application pools and maps, session store, pfcp_sessions gauge) back to the pre-session values; plus pool wraps: more attach/detach cycles than the smallest pool of each kind has elements (UE pool /29 x 40, 300 gNBs, 300 application filters, 600 sessions for 1024 counters, 400 three-QER sessions for 1023 meter cells, by deletion and by release); distinct = <datapath, ending, prefix> + wraps; family 'teardown race': a Session Establishment / creating Modification is in flight (receive goroutine parked on the association's handler lock, held by the harness) when Shutdown() starts (parked on hbMu right after closing the shutdown channel), both released in a drawn order on 1/2/4/16 Ps - nothing of the request may survive; prefixes idle-keep-tunnel, update-session-qer, peer-re-setup",
         "shards": {"quick": 16, "thorough": 16}, "timeout": {"quick": 800, "thorough": 14000},
         "floors": {"quick": {"occupancy_comparisons": 40, "attach_detach_cycles": 1500}, "thorough": {"occupancy_comparisons": 700}},
     },
@@ -117,7 +117,7 @@ PROPS = {
     },
     "C10": {
         "test": "TestVerif_C10", "level": "exploration",
-        "rule": "scenario = {0..n associations (some >100)} x {0-3 sessions} x trigger per association {release, silence->read timeout(+heartbeat failure), unanswered heartbeats, live} x requests in flight x datapath reply delay x PFCPIface.Stop() at a drawn offset (+-3.5 ms around the coinciding triggers), fresh agent per scenario, plus a 'refresh' family (association ends without Stop, same address:port associates afresh, bystander association checked); distinct = distinct interleaving signatures (datapath, heartbeat on/off, delay, stop offset in ms, multiset of per-association <trigger, order relative to Stop, release answered?, sessions>)",
+        "rule": "scenario = {0..n associations (some >100)} x {0-3 sessions} x trigger per association {release, silence->read timeout(+heartbeat failure), unanswered heartbeats, live} x requests in flight x datapath reply delay x PFCPIface.Stop() at a drawn offset (+-3.5 ms around the coinciding triggers), fresh agent per scenario, plus a 'refresh' family (association ends without Stop, same address:port associates afresh, bystander association checked); distinct = distinct interleaving signatures (datapath, heartbeat on/off, delay, stop offset in ms, multiset of per-association <trigger, order relative to Stop, release answered?, sessions>); families 'slow teardown at Stop' (6-9 sessions, 300-400 ms per datapath command, 1 s deadline, judged when Stop returns) and 'heartbeats without association' (101-220, then Stop / associate / silence)",
         "shards": {"quick": 12, "thorough": 16}, "timeout": {"quick": 800, "thorough": 12000},
         "owns_races": True,
         "floors": {"quick": {"associations": 100, "sessions": 50}, "thorough": {"associations": 1000, "sessions": 500}},
